@@ -272,6 +272,16 @@ func (e *Engine) Cursors(fn *ssa.Function) map[*ssa.Phi]ssa.Value {
 	}
 	e.curBusy[fn] = true
 	defer delete(e.curBusy, fn)
+	// the cursor invariant of fn is what proves fn's own post-condition, so a
+	// (mutually) recursive use of fn's summary is assumed here (coinduction)
+	if !e.sumBusy[fn] {
+		if _, have := e.sums[fn]; !have {
+			e.sumBusy[fn] = true
+			defer func() {
+				delete(e.sumBusy, fn)
+			}()
+		}
+	}
 	out := map[*ssa.Phi]ssa.Value{}
 	done := map[*ssa.Phi]bool{}
 	kit.Instrs(fn, func(in ssa.Instruction) {
